@@ -92,6 +92,8 @@ def check(repo: Repo, run: Run) -> None:
     mod = repo.module("kd_buf_parser")
     kb = repo.cls("kd_buf_parser", "KdBufParser")
     ks = consteval.evaluate(repo, mod, mod.constants.get("KEVENT_SIZE"))
+    if not isinstance(ks, int):
+        raise AnalysisError("kd_buf_parser.KEVENT_SIZE is missing or not a constant this analysis can evaluate")
     fn = repo.method("kd_buf_parser", "KdBufParser", "parse_v3")
     rec = interp.run(mod, fn, self_cls=kb)
     if rec.notes:
@@ -118,6 +120,20 @@ def check(repo: Repo, run: Run) -> None:
     # ------------------------------------------------------------------ R1
     from .. import streams
     ok = len(ev_yields) == 1 and len(ev_yields[0].loops) >= 2
+    if not ev_yields:
+        log_call0 = T("attr", (T("class", ("pykdebugparser.os_log_event.OsLogEvent",)), "from_raw_log_event"))
+        def _from_helper(x):
+            # an item of a helper object / generator of the package that was not reduced
+            return x.op == "elem" and any(z.op == "new" or (z.op == "call" and z.a[0].op in ("func", "class"))
+                                          or (z.op == "call" and z.a[0].op == "attr" and z.a[0].a[0].op == "new")
+                                          for z in sym.walk(x.a[0]))
+        unread0 = [y for y in other_yields if not (y.value.op == "call" and y.value.a[0] == log_call0)
+                   and any(_from_helper(x) for x in sym.walk(y.value))]
+        if unread0:
+            # the events come out of a helper object / generator the interpreter did not reduce (`for chunk in Chunks(reader):
+            # yield from chunk`): what is yielded there is not known
+            raise AnalysisError(f"parse_v3 yields a value of unknown provenance at line {unread0[0].lineno} "
+                                f"({sym.pretty(unread0[0].value)[:80]}) and no from_kd_buf(read({ks})): how the events are read is not decided")
     run.ob("R1", MOD, "KdBufParser.parse_v3", "one event yield: from_kd_buf(<raw 64-byte read>) inside chunk/record loops", ok,
            f"parse_v3 has {len(ev_yields)} yields of from_kd_buf(read({ks})) (expected one, inside the record loop of the chunk loop)",
            line=fn.lineno)
@@ -200,6 +216,16 @@ def check(repo: Repo, run: Run) -> None:
                                                                  (T("cmp", ("==", const(more), rd)), True))]
             rest = [c for c in contribs if c not in eq]
             form_flag = len(eq) == 1 and all(sym.truth(c) is True for c in rest)
+    # tag form: `tag = MORE_EVENTS; while tag == MORE_EVENTS: ...; tag = read(8)`
+    form_tag = False
+    if outer.test is not None and n_break == 0:
+        atom, apol = render.norm_bool(sym.resolve_widens(rec, outer.test))
+        if apol and atom.op == "cmp" and atom.a[0] == "==" and const(more) in (atom.a[1], atom.a[2]):
+            w_ = atom.a[2] if atom.a[1] == const(more) else atom.a[1]
+            if w_.op == "widen":
+                contribs = [c for c in w_.a[2] if not (c.op == "widen" and c.a[:2] == w_.a[:2])]
+                form_tag = len(contribs) == 2 and const(more) in contribs and rd in contribs
+    form_flag = form_flag or form_tag
     run.ob("R1", MOD, "KdBufParser.parse_v3", "chunk loop continues iff the next 8 bytes are MORE_EVENTS", form_break or form_flag,
            "" if form_break or form_flag else
            "the chunk loop is not left exactly when read(8) differs from TRACEV3_MORE_EVENTS: later chunks are skipped or the "
